@@ -35,6 +35,15 @@ Assign(h, g)     == IsLive(h) /\ IsLive(g) /\ val' = [val EXCEPT ![h] = val[g]]
 MoveCtor(h, g)   == ~IsLive(h) /\ IsLive(g) /\ h # g /\ val' = [val EXCEPT ![h] = val[g], ![g] = Dead]
 MoveAssign(h, g) == IsLive(h) /\ IsLive(g) /\ h # g /\ val' = [val EXCEPT ![h] = val[g], ![g] = Dead]
 Destroy(h)       == IsLive(h) /\ val' = [val EXCEPT ![h] = Dead]
+\* ReindexStates(dst, f, addFinal): the image of g under the total map f is ADDED to the existing automaton h
+ReindexInto(h, g, f(_), addFinal) ==
+  /\ IsLive(h) /\ IsLive(g) /\ h # g
+  /\ val' = [val EXCEPT ![h].rules = @ \cup {<<r[1], [i \in 1..Len(r[2]) |-> f(r[2][i])], f(r[3])>> : r \in val[g].rules},
+                        ![h].fin = IF addFinal THEN @ \cup {f(q) : q \in val[g].fin} ELSE @]
+\* CopyTransitionsFrom(src, pred): the rules of g selected by the predicate are added to h
+CopyTrans(h, g, Sel(_)) ==
+  /\ IsLive(h) /\ IsLive(g) /\ h # g
+  /\ val' = [val EXCEPT ![h].rules = @ \cup {r \in val[g].rules : Sel(r)}]
 \* a library operation stores its result v in the dead handle h; nothing else changes
 Derive(h, v)     == ~IsLive(h) /\ val' = [val EXCEPT ![h] = AliveS(v.fin, v.rules, v.start)]
 \* a read-only query changes nothing
